@@ -128,3 +128,20 @@ def parse_mismatch(m):
         return (int(parts[0]), parts[1], parts[2])
     except (ValueError, IndexError):
         return (None, "?", "?")
+
+
+def count_distinct_nontrivial(trace_path, pred):
+    """Measured coverage: number of episodes that are pairwise distinct (by
+    the hash of their events, Reset line excluded) and satisfy pred(lines)."""
+    seen = set()
+    n = 0
+    for start, lines in vlib.split_episodes(trace_path):
+        body = lines[1:] if lines and lines[0].startswith('{"e":"Reset"') else lines
+        if not pred(body):
+            continue
+        h = hashlib.sha1("".join(body).encode()).digest()
+        if h in seen:
+            continue
+        seen.add(h)
+        n += 1
+    return n
